@@ -443,6 +443,42 @@ def apply_op(b, op, nodes_by_id, docs):
                 gn.materials = []
             else:
                 gn.materials.append(b.mk_matnode(op[2]))
+    elif k == 'replace_asset':
+        # wholesale replacement of the singleton asset object
+        m.assetInfo = asset.Asset()
+        b.set_asset(op[1])
+    elif k == 'replace_object':
+        # a library object is replaced by a NEW object carrying the same id
+        lib = getattr(m, op[1])
+        if len(lib) > 0:
+            i = op[2] % len(lib)
+            o = lib[i]
+            r = dict(op[3])
+            r['id'] = o.id
+            if op[1] == 'lights':
+                new = b.mk_light(r)
+            elif op[1] == 'cameras':
+                new = b.mk_camera(r)
+            elif op[1] == 'images':
+                new = material.CImage(o.id, r['path'], m)
+            elif op[1] == 'effects':
+                new = b.mk_effect(r)
+            elif op[1] == 'materials':
+                new = material.Material(o.id, r['name'], o.effect)
+            elif op[1] == 'geometries':
+                new = b.mk_geometry(r)
+            else:
+                return
+            if o.id:
+                lib[i] = new
+    elif k == 'replace_scene':
+        if len(m.scenes) > 0:
+            i = op[1] % len(m.scenes)
+            old = m.scenes[i]
+            new = scene.Scene(old.id, list(old.nodes))
+            m.scenes[i] = new
+            if m.scene is old:
+                m.scene = new
     elif k == 'set_scene':
         m.scene = m.scenes[op[1] % len(m.scenes)] if (op[1] is not None and len(m.scenes)) else None
     else:
